@@ -587,7 +587,7 @@ pub fn run(ctx: &Ctx, evidence: Option<&PathBuf>) -> i32 {
             ExitStatus::SUCCESS,
         ];
         let status = statuses[(c.index / 4) as usize];
-        for role in [wire::RESPONDER, wire::AUTHORIZER, wire::FILTER] {
+        for (role, writes) in [(wire::RESPONDER, true), (wire::AUTHORIZER, true), (wire::FILTER, true), (wire::RESPONDER, false), (wire::FILTER, false)] {
             let mut w = Vec::new();
             let spec_ = crate::gen::ReqSpec {
                 id,
@@ -606,7 +606,9 @@ pub fn run(ctx: &Ctx, evidence: Option<&PathBuf>) -> i32 {
                 marker: None,
             };
             let built = crate::gen::push_request(&mut c.rng, &mut w, &spec_);
-            let script = crate::handler::Script { ops: vec![crate::handler::Op::Write(wire::STDOUT, 5)], propagate: true, status };
+            // a handler that writes (and so awaits writeability first) and one that returns at once
+            let ops = if writes { vec![crate::handler::Op::Write(wire::STDOUT, 5)] } else { vec![] };
+            let script = crate::handler::Script { ops, propagate: true, status };
             let end = w.len();
             let case = ConnCase {
                 wire: w,
@@ -656,7 +658,7 @@ pub fn run(ctx: &Ctx, evidence: Option<&PathBuf>) -> i32 {
         }
         c.l.sig(0xe9 ^ (c.index << 8));
     });
-    ctx.gate("epilogues_checked", 4 * 9 * 3);
+    ctx.gate("epilogues_checked", 4 * 9 * 5);
     ctx.gate("version_type_pairs", if small { 0 } else { 65536 });
     ctx.gate("content_lengths_checked", 65536);
     ctx.gate("subset_limit_combinations", 8 * 20);
